@@ -24,7 +24,9 @@ const (
 func (r SatResult) String() string { return [...]string{"unsat", "sat", "unknown"}[r] }
 
 type Solver struct {
-	intMode  bool   // integer (bv-as-int) encoding
+	intMode  bool // integer (bv-as-int) encoding
+	fresh    bool // every query is self-contained (no incremental stack)
+	freshPC  []*Term
 	kind     string // z3, z3-new, cvc5
 	cmd      *exec.Cmd
 	in       io.WriteCloser
@@ -195,6 +197,9 @@ func (s *Solver) SyncTo(pc []*Term) int {
 // Check decides satisfiability of the asserted stack plus extra (scratch scope).
 // If wantModel and the result is Sat, the values of vars are returned.
 func (s *Solver) Check(extra []*Term, vars []*Term, wantModel bool) (SatResult, Model) {
+	if s.fresh {
+		return s.checkFresh(extra, vars, wantModel)
+	}
 	start := time.Now()
 	defer func() {
 		d := time.Since(start)
@@ -393,4 +398,50 @@ func tokenize(s string) []string {
 		}
 	}
 	return toks
+}
+
+// checkFresh solves pc ∧ extra from scratch (no incremental state).
+func (s *Solver) checkFresh(extra []*Term, vars []*Term, wantModel bool) (SatResult, Model) {
+	start := time.Now()
+	defer func() {
+		d := time.Since(start)
+		s.Time += d
+		s.Queries++
+		liveSolverNs.Add(int64(d))
+		liveQueries.Add(1)
+	}()
+	s.send("(reset)")
+	s.send("(set-option :produce-models true)")
+	s.defined = map[[2]uint64]int{}
+	s.declared = map[string]int{}
+	s.levels = s.levels[:0]
+	for _, c := range s.freshPC {
+		s.emit(c)
+		s.send("(assert " + c.ref2(s.intMode) + ")")
+	}
+	for _, e := range extra {
+		s.emit(e)
+		s.send("(assert " + e.ref2(s.intMode) + ")")
+	}
+	s.send("(check-sat)")
+	res := s.readResult()
+	if res != Sat || !wantModel {
+		return res, nil
+	}
+	var names []string
+	for _, v := range vars {
+		if _, ok := s.declared[v.name]; ok {
+			names = append(names, smtName(v.name))
+		}
+	}
+	m := Model{}
+	if len(names) > 0 {
+		s.send("(get-value (" + strings.Join(names, " ") + "))")
+		txt := s.readSexp()
+		if err := parseModel(txt, m); err != nil {
+			s.Errors++
+			return Unknown, nil
+		}
+	}
+	return Sat, m
 }
